@@ -379,7 +379,7 @@ class SymInt(Sym):
         if isinstance(o, SymInt):
             return SymBool(f(self.t, o.t))
         if isinstance(o, float):
-            return SymBool(f(z3.ToReal(self.t), z3.RealVal(repr(o))))
+            return SymBool(f(z3.ToReal(self.t), as_real(o).t))
         if isinstance(o, SymReal):
             return SymBool(f(z3.ToReal(self.t), o.t))
         return NotImplemented
@@ -433,7 +433,8 @@ def as_real(x):
     if isinstance(x, float):
         if x != x or x in (float("inf"), float("-inf")):
             raise ShadowAbort("non-finite float in real-valued obligation")
-        return SymReal(z3.RealVal(repr(x)) if float(x).is_integer() is False else z3.RealVal(int(x)))
+        from fractions import Fraction
+        return SymReal(z3.RealVal(str(Fraction(x))))  # the exact value of the double
     raise ShadowAbort(f"cannot use {type(x).__name__} as Real")
 
 
